@@ -1,9 +1,13 @@
-//! pvc-ks: checks C03, C04.  usage: pvc-ks <Cxx> --tier quick|thorough [--replay f] [--only family]
+//! pvc-ks: checks C03, C04 and the key-switching / external-product parts of the cross-cutting properties C10, C11, C12.  usage: pvc-ks <Cxx> --tier quick|thorough [--replay f] [--only family]
 
 pub mod c03;
 pub mod c03b;
 pub mod kit;
 pub mod c04;
+pub mod c10ks;
+pub mod c11ks;
+pub mod c12ks;
+pub mod xks;
 
 use pvc_engine::{Run, load_replay, parse_args};
 
@@ -19,9 +23,27 @@ fn main() {
             run.finish()
         }};
     }
+    // parts of multi-group properties: a replay descriptor of another group's family is not ours (exit code 2)
+    macro_rules! part {
+        ($level:expr, $run:path, $replay:path) => {{
+            let mut run = Run::new(&args, $level);
+            match &args.replay {
+                Some(p) => {
+                    if !$replay(&mut run, &load_replay(p)) {
+                        std::process::exit(2);
+                    }
+                }
+                None => $run(&mut run),
+            }
+            run.finish()
+        }};
+    }
     let code = match args.property.as_str() {
         "C03" => check!("exploration", c03::run, c03::replay),
         "C04" => check!("exploration", c04::run, c04::replay),
+        "C10" => part!("exploration", c10ks::run, c10ks::replay),
+        "C11" => part!("model_checking", c11ks::run, c11ks::replay),
+        "C12" => part!("exploration", c12ks::run, c12ks::replay),
         o => {
             eprintln!("pvc-ks: unknown property {o}");
             2
